@@ -43,21 +43,21 @@ claim(
 claim(
     "C01",
     "Hypothesis-generated whole scenarios (JSON specs -> build layer) vs. an independent reference model of the run loop; occupancy snapshot in every period through the post_charging_update override point; step bound for termination",
-    "Exploration: 500 (quick) / 40 000 (thorough) generated scenarios (1-6 stations of all EVSE classes, back-to-back reuse, simultaneous events, recompute events, five period lengths, max_recompute None/1/2/3/7, scripted/always-max/uncontrolled/greedy/round-robin schedulers, shuffled insertion). Checked: termination within last+1 periods, queue empty, stations vacant, event multiset exactly once each, order (time, unplug<plug-in<recompute), every event handled in its period, occupant of every station in every period, current only (and in the always-max family: whenever) connected.",
+    "Exploration: 500 (quick) / 40 000 (thorough) generated scenarios (1-6 stations of all EVSE classes, back-to-back reuse, simultaneous events, recompute events, five period lengths, max_recompute None/1/2/3/7, scripted/always-max/uncontrolled/greedy/round-robin schedulers, shuffled insertion). Checked: termination within last+1 periods, queue empty, stations vacant, event multiset exactly once each, order (time, unplug<plug-in<recompute), every event handled in its period, occupant of every station in every period, current only (and in the always-max family: whenever) connected. The same scenario is also run on a simulator dumped to JSON and loaded before its first period, and with an EventQueue object that was queried for a late period before being filled.",
     "Trusted: acnverif/scenario.py (build layer and Model); sessions on one station never overlap; continuous EVSEs have min_rate 0.",
     "DESIGN.md 3/C01",
 )
 claim(
     "C02",
     "Hypothesis-generated whole simulations; three-way ledger relation (EV counter = integral of recorded rates = battery gain via JSON dump) and first-principles recomputation of peak / aggregate power / totals against the reference model's occupancy",
-    "Exploration: 400 (quick) / 30 000 (thorough) generated simulations with all battery models, generated noise draws, heterogeneous voltages, fractional periods and schedules addressing vacant stations; per session the three energy figures agree to 1e-9 relative; recorded rate exactly 0 wherever the model has no EV connected; peak, aggregate current/power and total energy recomputed from the rate matrix.",
+    "Exploration: 400 (quick) / 30 000 (thorough) generated simulations with all battery models, generated noise draws, heterogeneous voltages, fractional periods and schedules addressing vacant stations; per session the three energy figures agree to 1e-9 relative; recorded rate exactly 0 wherever the model has no EV connected; peak, aggregate current/power and total energy recomputed from the rate matrix. A second sub-check repeats the ledger on 200 / 15 000 StochasticNetwork histories (run-time station assignment, waiting queue, early departure).",
     "Trusted: acnverif/scenario.py Model for occupancy; tolerance 1e-9 relative (+1e-12, battery 1e-11*capacity absolute).",
     "DESIGN.md 3/C02",
 )
 claim(
     "C04",
     "Hypothesis-generated schedule sequences (scripted scheduler table inside generated scenarios) vs. the reference model's overlay matrix; per-period read-back of EVSE.current_pilot; metamorphic entry-order reversal; fault injection of malformed schedules with before/after state snapshots and resume",
-    "Exploration: 500 (quick) / 40 000 (thorough) generated scenarios whose scheduler returns generated schedules (empty, any station subset, length 1-6 incl. beyond the horizon in the last period, int/float/numpy values, shuffled entries, any max_recompute). Final pilot_signals (+ DataFrame view) equals the overlay of the submitted schedules on the whole width; the pilot each EVSE holds after every period equals the overlay column; reversed entry order gives a bit-identical result; an unknown station id / unequal rows raise KeyError / InvalidScheduleError with no state change and the run can be resumed.",
+    "Exploration: 500 (quick) / 40 000 (thorough) generated scenarios whose scheduler returns generated schedules (empty, any station subset, length 1-6 incl. beyond the horizon in the last period, int/float/numpy values, shuffled entries, any max_recompute). Final pilot_signals (+ DataFrame view) equals the overlay of the submitted schedules on the whole width; the pilot each EVSE holds after every period equals the overlay column; reversed entry order gives a bit-identical result; an unknown station id / unequal rows raise KeyError / InvalidScheduleError with no state change and the run can be resumed. In a third of the cases the run is additionally interrupted, dumped to JSON, loaded and resumed, and pending multi-period schedules must survive.",
     "Trusted: acnverif/scenario.py Model.overlay; pilots drawn from the station's allowable set.",
     "DESIGN.md 3/C04",
 )
@@ -78,14 +78,14 @@ claim(
 claim(
     "C10",
     "Hypothesis-generated scenarios with three generated permutations and a time shift; metamorphic relations (same spec twice, permuted build, shifted build) on per-station outputs; tie exclusion by construction plus runtime discard",
-    "Exploration: 600 (quick) / 30 000 (thorough) generated scenarios with heavy contention and binding constraints; scripted, uncontrolled, greedy and round-robin (five sort orders, with/without uninterrupted charging, max_recompute 1/2/3/None) schedulers. Same spec twice is bit-identical; permuting station registration, constraint insertion and event insertion leaves per-station pilots exactly equal and rates/energies equal to 1e-12; shifting all events by k in [1,8] shifts pilots, rates and event times by k.",
+    "Exploration: 600 (quick) / 30 000 (thorough) generated scenarios with heavy contention and binding constraints; scripted, uncontrolled, greedy and round-robin (five sort orders, with/without uninterrupted charging, max_recompute 1/2/3/None) schedulers. Same spec twice is bit-identical; permuting station registration, constraint insertion and event insertion leaves per-station pilots exactly equal and rates/energies equal to 1e-12; shifting all events by k in [1,8] shifts pilots, rates and event times by k. A simulator built through a JSON dump/load gives the same per-station outputs; scripted schedulers may steer by interface.is_feasible with mappings naming every station.",
     "Trusted: arrivals/departures/estimated departures pairwise distinct, laxity/processing-time near ties discarded and counted; noise off; no upper-bound estimator; the shift relation is claimed for max_recompute in {None,1} or a first event in period 0.",
     "DESIGN.md 3/C10",
 )
 claim(
     "C07",
     "Hypothesis-generated whole simulations under greedy / round-robin with every option; a wrapper captures every emitted schedule and the estimator's returned bounds; per-schedule validity predicates (exact phasor feasibility, independent EVSE predicate, remaining-demand and estimator bounds, zero for inactive stations) plus run-level warnings/exceptions/over-delivery",
-    "Exploration: 400 (quick, ~4 000 schedules) / 30 000 (thorough) generated simulations over continuous-from-zero and finite-rate EVSEs, three-phase mixed-sign binding constraints, tiny to large requests, throttling batteries, 5 sort orders x uninterrupted x SimpleRampdown(generated thresholds) x increments x max_recompute. Every emitted schedule satisfies the five validity clauses; no infeasible-schedule warning, no exception, no session receives more than it requested.",
+    "Exploration: 400 (quick, ~4 000 schedules) / 30 000 (thorough) generated simulations over continuous-from-zero and finite-rate EVSEs, three-phase mixed-sign binding constraints, tiny to large requests, throttling batteries, 5 sort orders x uninterrupted x SimpleRampdown(generated thresholds) x increments x max_recompute. Every emitted schedule satisfies the five validity clauses; no infeasible-schedule warning, no exception, no session receives more than it requested. In a third of the constrained cases a constraint limit is changed with update_constraint in the middle of the run.",
     "Trusted: acnverif/oracles/phasor.py; default network tolerances; deadband / min_rate>0 EVSEs are outside the property's stated domain.",
     "DESIGN.md 3/C07",
 )
@@ -99,7 +99,7 @@ claim(
 claim(
     "C12",
     "Hypothesis rule-based state machine (op log = replay file) over ChargingNetwork with generated Current expression trees vs. a name-keyed model in exact rational arithmetic; alignment invariant after every step; subset/time queries vs. the model's phasor sums; rejected operations must leave a bit-identical snapshot",
-    "Exploration: 400 (quick) / 40 000 (thorough) generated histories of up to 25 operations (register, add, failing add on an unregistered station, remove, update with/without rename, unknown names, subset and time-index queries) with expression trees of depth <= 3 over dict/str/list/Series leaves. After every step matrix rows, limits and names are aligned with the model (row positions read back, columns in registration order, no NaN), queries return rows in network order and the requested columns, is_feasible follows the aligned limits, late registration and rejected operations change nothing.",
+    "Exploration: 400 (quick) / 40 000 (thorough) generated histories of up to 25 operations (register, add, failing add on an unregistered station, remove, update with/without rename, unknown names, subset and time-index queries) with expression trees of depth <= 3 over dict/str/list/Series leaves. After every step matrix rows, limits and names are aligned with the model (row positions read back, columns in registration order, no NaN), queries return rows in network order and the requested columns, is_feasible follows the aligned limits, late registration and rejected operations change nothing. Histories include JSON round trips (continuing on the restored network), linear-mode queries and queries directly before and after a removal / update.",
     "Trusted: the rational model in acnverif/props/c12.py; dyadic coefficients; explicit unique names (auto-naming is not modelled).",
     "DESIGN.md 3/C12",
 )
@@ -113,7 +113,7 @@ claim(
 claim(
     "C16",
     "Hypothesis-generated frontier search (generated weight patterns and ascent orders, bisection and coordinate ascent on network.is_feasible, hypothesis.target on P/capacity) against a physical, angle-free power bound and independently computed pod / panel line currents from a transcribed topology; exhaustive structural sub-check over sites x EVSE types",
-    "Exploration: 320 (quick) / 30 000 (thorough) frontier starts over caltech / jpl / office001, basic and real EVSE types, transformer capacities in (10, 400) kW chosen so that the transformer binds, phase-aware and linear feasibility. Every accepted schedule (scaled, ascended, snapped to allowable levels) keeps 120*sqrt(3)*sum(I) within each transformer's rating (best ratios reached: 0.99999, never above 1) and every pod / sub-panel line current within its rating. Exhaustive: documented station sets (54/52/8), angles equal to the documented line-to-line pair, every station in its transformer's secondary constraints, EVSE level sets.",
+    "Exploration: 320 (quick) / 30 000 (thorough) frontier starts over caltech / jpl / office001, basic and real EVSE types, transformer capacities in (10, 400) kW chosen so that the transformer binds, phase-aware and linear feasibility. Every accepted schedule (scaled, ascended, snapped to allowable levels) keeps 120*sqrt(3)*sum(I) within each transformer's rating (best ratios reached: 0.99999, never above 1) and every pod / sub-panel line current within its rating. Exhaustive: documented station sets (54/52/8), angles equal to the documented line-to-line pair, every station in its transformer's secondary constraints, EVSE level sets. A quarter of the frontier starts and half of the structural cases use the site network restored from its JSON dump.",
     "Trusted: the topology tables and delta-connection computation in acnverif/props/c16.py; nominal 120/208 V, unity power factor.",
     "DESIGN.md 3/C16",
 )
